@@ -308,6 +308,20 @@ fn run_shard(ctx: &ShardCtx) {
                 }
             }
         }
+        // a printable ASCII character in the middle of a would-be sequence ends it: the bytes before it are dropped, the
+        // character is accepted, the continuation bytes after it belong to nothing (all sequences of 2-3 high bytes)
+        for a in 0x80u8..=0xFF {
+            for b in 0x80u8..=0xFF {
+                if !go(&[a, b'b', b]) {
+                    break 'g1;
+                }
+                for c in 0x80u8..=0xFF {
+                    if !go(&[a, b'b', b, c]) || !go(&[a, b, b'b', c]) {
+                        break 'g1;
+                    }
+                }
+            }
+        }
         if !thorough {
             for a in BOUNDARY {
                 for b in BOUNDARY {
@@ -323,7 +337,7 @@ fn run_shard(ctx: &ShardCtx) {
         }
     }
     ctx.exhaustive(
-        if thorough { "all sequences of 1-4 bytes >= 0x80" } else { "all sequences of 1-3 bytes >= 0x80 and all 4-byte sequences over 24 boundary bytes" },
+        if thorough { "all sequences of 1-4 bytes >= 0x80; all sequences of 2-3 such bytes with a printable character inserted" } else { "all sequences of 1-3 bytes >= 0x80, the same with a printable character inserted, and all 4-byte sequences over 24 boundary bytes" },
         !ctx.failed(),
     );
     let enumerated = ctx.res.borrow().evaluations;
